@@ -87,6 +87,9 @@ class Check(FormulaCheck):
     def arg(self, rnd, tag):
         k = rnd.random()
         s = rnd.choice([1, -1])
+        if rnd.random() < 0.12:
+            # 'over many magnitudes': all of them, from the subnormals to the largest doubles
+            return s * 10 ** rnd.uniform(-320, 308)
         if rnd.random() < 0.1:
             # the doubles right beside the edge of a domain (1..8 ulps on either side of -1, 0, 1): in or out is decided there, not a casual epsilon away
             import math
@@ -146,6 +149,10 @@ class Check(FormulaCheck):
             rec.count('skipped.overflow')
             return
         ok = self.expect('C16/%s:value%s' % (fn, '' if how == 'number' else ':' + how), close_mp(g, ref), x=v, got=g, expected=float(ref))
+        # 'to within floating-point rounding' is a RELATIVE statement wherever the value is an ordinary double: a result of 0.0 for a
+        # true 1e-17 is not within rounding of it, however small the difference
+        if ok and m.mpf('1e-300') <= abs(ref) <= m.mpf('1.79e308'):
+            self.expect('C16/%s:value-not-within-rounding-relative-to-its-size' % fn, abs(mpf(g) - ref) <= m.mpf('1e-9') * abs(ref), x=v, got=g, expected=float(ref))
         if ok:
             dev = float(abs(mpf(g) - ref) / max(1, abs(ref)))
             if dev > self.maxdev.get(fn, 0.0):
@@ -174,8 +181,8 @@ class Check(FormulaCheck):
                     g = self.ev('%s(v_x)' % fn, v_x=t)
                     self.expect('C16/%s:non-numeric-text-yields-a-number' % fn, self.is_err(g), x=t, got=g)
             if rnd.random() < 0.15:
-                t = rnd.choice(['i', '3+4i', '2j', 'nan', 'inf', 'abc', '1_0', '(1)'])
-                for f in ('PV(0,10,v_t)', 'PV(v_t,10,1)', 'POWER(v_t,2)', 'POWER(2,v_t)', 'LOG(v_t,2)', 'ATAN2(v_t,1)', 'ATAN2(1,v_t)', 'RADIANS(v_t)', 'DEGREES(v_t)'):
+                t = rnd.choice(['i', '3+4i', '2j', 'nan', 'inf', 'abc', '1_0', '(1)', '', ' ', '""', 'TRUE ', '-', '.', 'e'])
+                for f in ('PV(0,10,v_t)', 'PV(v_t,10,1)', 'PV(0.05,v_t,1)', 'PV(0.05,10,1,v_t)', 'PV(0.05,10,1,0,v_t)', 'PV(0,10,1,v_t,0)', 'PV(0.05,10,1,v_t,v_t)', 'POWER(v_t,2)', 'POWER(2,v_t)', 'LOG(v_t,2)', 'ATAN2(v_t,1)', 'ATAN2(1,v_t)', 'RADIANS(v_t)', 'DEGREES(v_t)'):
                     g = self.ev(f, v_t=t)
                     self.expect('C16/%s:non-numeric-text-yields-a-number' % f.split('(')[0], self.is_err(g), formula=f, text=t, got=g)
             if rnd.random() < 0.1:
